@@ -138,3 +138,12 @@ Proof.
 Qed.
 Goal True. idtac "ASSUMPTIONS-OF C12_example_whole_file". Abort.
 Print Assumptions C12_example_whole_file.
+
+(* cutting a line at ';' never loses a character: for EVERY text (any literals, parentheses, masks), the pieces
+   joined with ';' are the text *)
+From FV Require Import SemiLaws.
+Theorem C12_cutting_at_semicolons_keeps_every_character :
+  forall t, join_semi (Reader.semi_split t) = t.
+Proof. exact semi_split_lossless. Qed.
+Goal True. idtac "ASSUMPTIONS-OF C12_cutting_at_semicolons_keeps_every_character". Abort.
+Print Assumptions C12_cutting_at_semicolons_keeps_every_character.
